@@ -5023,6 +5023,91 @@ def split_boolean_keyed_dicts(fnode, counter):
     return changed
 
 
+def inline_new_self_properties(repo, f):
+    """self.NAME  with NAME a @property that is NEW (outside the baseline table), defined by the enclosing class (or a base) with a body of one
+    `return E` over `self` only   ->   E.   (A property introduced by a later change is read where it is used, like a new helper.)"""
+    new = set(getattr(repo, "new_functions", []) or [])
+    if not new or not f.cls:
+        return False
+    changed = [False]
+
+    class T(ast.NodeTransformer):
+        def visit_Attribute(self, n):
+            self.generic_visit(n)
+            if isinstance(n.ctx, ast.Load) and isinstance(n.value, ast.Name) and n.value.id == "self":
+                m = repo.lookup_method(f.class_q, n.attr)
+                g = repo.funcs.get(m) if m else None
+                if g is not None and m in new and g.is_property and g.node is not f.node and g.params == ["self"]:
+                    body_ = [st for st in g.node.body if not (isinstance(st, ast.Expr) and isinstance(st.value, ast.Constant))]
+                    if len(body_) == 1 and isinstance(body_[0], ast.Return) and body_[0].value is not None \
+                            and all(not isinstance(x, ast.Name) or x.id == "self" or repo.chase(g.mod, x.id) is not None or x.id in ("np", "len", "tuple", "list") for x in ast.walk(body_[0].value)) \
+                            and g.mod == f.mod:
+                        changed[0] = True
+                        return ast.copy_location(copy.deepcopy(body_[0].value), n)
+            return n
+    f.node = T().visit(f.node)
+    return changed[0]
+
+
+def propagate_nonzero_locals(fnode):
+    """rows = M.nonzero() / np.nonzero(M)   (M a plain name / attribute path; rows bound once and used only as a whole index `X[rows]`)
+    ->  X[M]: the tuple of index arrays of a mask selects what the mask selects, in the same order"""
+    stores = {}
+    for x in ast.walk(fnode):
+        if isinstance(x, ast.Name) and isinstance(x.ctx, (ast.Store, ast.Del)):
+            stores[x.id] = stores.get(x.id, 0) + 1
+    par = {}
+    for n in ast.walk(fnode):
+        for c in ast.iter_child_nodes(n):
+            par[c] = n
+    changed = False
+    for st in list(walk_own(fnode)):
+        if not (isinstance(st, ast.Assign) and len(st.targets) == 1 and isinstance(st.targets[0], ast.Name) and isinstance(st.value, ast.Call) and not st.value.keywords):
+            continue
+        v, name = st.value, st.targets[0].id
+        mask = None
+        if isinstance(v.func, ast.Attribute) and v.func.attr == "nonzero" and not v.args and _cheap(v.func.value) and not (isinstance(v.func.value, ast.Name) and v.func.value.id in ("np", "numpy")):
+            mask = v.func.value
+        elif U(v.func) in ("np.nonzero", "numpy.nonzero") and len(v.args) == 1 and _cheap(v.args[0]):
+            mask = v.args[0]
+        if mask is None or stores.get(name) != 1 or name in _CAPTURED:
+            continue
+        uses = [x for x in ast.walk(fnode) if isinstance(x, ast.Name) and x.id == name and isinstance(x.ctx, ast.Load)]
+        if not uses or not all(isinstance(par.get(u), ast.Subscript) and par[u].slice is u and isinstance(par[u].ctx, ast.Load) for u in uses):
+            continue
+        # the mask must not be re-bound or written between the definition and the uses: require that nothing stores into its root at all
+        root = mask
+        while isinstance(root, ast.Attribute):
+            root = root.value
+        if not isinstance(root, ast.Name) or stores.get(root.id, 0) > (0 if root.id in {p.arg for p in fnode.args.args} else 1):
+            continue
+        mtxt = U(mask)
+        if any(isinstance(x, (ast.Subscript, ast.Attribute)) and isinstance(x.ctx, (ast.Store, ast.Del)) and U(x.value if isinstance(x, ast.Subscript) else x) == mtxt for x in ast.walk(fnode)):
+            continue
+        for u in uses:
+            par[u].slice = copy.deepcopy(mask)
+        changed = True
+    if changed:
+        drop_dead = [st for st in walk_own(fnode) if isinstance(st, ast.Assign) and len(st.targets) == 1 and isinstance(st.targets[0], ast.Name)
+                     and not any(isinstance(x, ast.Name) and x.id == st.targets[0].id and isinstance(x.ctx, ast.Load) for x in ast.walk(fnode))
+                     and isinstance(st.value, ast.Call) and ((isinstance(st.value.func, ast.Attribute) and st.value.func.attr == "nonzero"))]
+
+        def strip(stmts):
+            out = []
+            for s_ in stmts:
+                if any(s_ is d for d in drop_dead):
+                    continue
+                for fld in ("body", "orelse", "finalbody"):
+                    sub = getattr(s_, fld, None)
+                    if isinstance(sub, list) and sub and isinstance(sub[0], ast.stmt) and not isinstance(s_, (ast.FunctionDef, ast.AsyncFunctionDef, ast.ClassDef)):
+                        setattr(s_, fld, strip(sub) or [ast.Pass()])
+                out.append(s_)
+            return out
+        fnode.body = strip(fnode.body) or [ast.Pass()]
+        ast.fix_missing_locations(fnode)
+    return changed
+
+
 def partial_evaluate(repo, max_rounds=8):
     from .inliner import simplify
     from .normalize import simplify_lists
@@ -5056,6 +5141,9 @@ def partial_evaluate(repo, max_rounds=8):
             if inline_expression_helpers(repo, f):
                 ch = True
                 steps.append("helpers")
+            if inline_new_self_properties(repo, f):
+                ch = True
+                steps.append("new-properties")
             if inline_closures(f.node):
                 ch = True
                 steps.append("closures")
@@ -5148,6 +5236,9 @@ def partial_evaluate(repo, max_rounds=8):
             if propagate_slice_locals(f.node):
                 ch = True
                 steps.append("slices")
+            if (steps or q in getattr(repo, "inlined", {})) and propagate_nonzero_locals(f.node):
+                ch = True
+                steps.append("nonzero-locals")
             if steps and propagate_tuple_locals(f.node):
                 ch = True
                 steps.append("tuples")
